@@ -120,3 +120,13 @@ Definition run_nextconfig (inp : list N) : list N :=
       ++ [quorum_size cur]
   | _ => []
   end.
+
+(* structural equality of configurations *)
+Definition server_eqb (a b : server) : bool :=
+  (s_suff a =? s_suff b) && (s_id a =? s_id b) && (s_addr a =? s_addr b).
+Fixpoint config_eqb (a b : config) : bool :=
+  match a, b with
+  | [], [] => true
+  | x :: r, y :: r' => server_eqb x y && config_eqb r r'
+  | _, _ => false
+  end.
